@@ -311,7 +311,7 @@ impl Harness {
                 .listen(incoming)
                 .serve(handler, app.clone())
         };
-        let mut run = Run {
+        let run = Run {
             h: self,
             cfg,
             epoch,
